@@ -38,4 +38,8 @@ RECURSIVE After(_, _, _)
 After(k, n, D) == IF k = 0 THEN 0 ELSE Store(After(k - 1, n, D), n, D)
 \* after k segments of n KiB: retained and per-packet work stay within the (scaled) bounds for every k
 ModelBounded(D) == \A k \in 1..400 : After(k, 2, D) <= 256 /\ Work(After(k - 1, 2, D), 2, D) <= 1024 + 2
+\* ---- capture front ends: what analyze_pcap holds while it works (its reader's buffer, the analyzer's tables) does not depend on
+\* how long the capture is: the peak for a capture four times as long is the same, up to FrontSlack
+FrontSlack == 1048576
+FrontEndOk(peak_small, peak_big) == peak_big <= peak_small + FrontSlack
 =============================================================================
